@@ -108,6 +108,9 @@ def gen_cfg(rng, prop, tier, allow_big=True):
     else:
         family = "light" if rng.random() < 0.35 else "node"
         menu = rng.choice(LIGHT_MENUS if family == "light" else NODE_MENUS)
+        if prop == "C02" and family == "node" and rng.random() < 0.15:
+            # the library's classes exactly as shipped (no hook mixin in the MRO)
+            menu = rng.choice((("PNode",), ("PAny",), ("PNode", "PSym"), ("PNode", "PAny")))
     n_nodes = rng.randint(2, 14 if thorough else 8)
     if rng.random() < 0.1:
         length = rng.randint(13, 40)
@@ -369,7 +372,7 @@ def gen_op(rng, model, cfg, step):
             op["c"] = wchoice(rng, (("list", 5), ("tuple", 2), ("gen", 2)))
         elif r < 0.55:
             op["xs"] = {"noniter": rng.choice(("int", "none", "zero"))}
-        if cls in ("HNode", "HNodeEq", "HNodeBag", "HNodeNo", "HNodeInst", "HAny", "HMix", "HSym") and rng.random() < 0.3:
+        if cls in ("HNode", "HNodeEq", "HNodeBag", "HNodeNo", "HNodeInst", "HAny", "HMix", "HSym", "PNode", "PAny", "PSym") and rng.random() < 0.3:
             op["attrs"] = {"foo": step}
     prof = cfg["profile"]
     if cfg["prop"] == "C02" and op["op"] == "parent" and n_nodes > 2 and rng.random() < 0.06:
